@@ -3,6 +3,7 @@
 # breaking change under its own property, every behaviour-preserving patch under all properties.
 # usage: tools/regress.sh [outdir]   (uses a private copy of bin/pslint so that rebuilding meanwhile is harmless)
 out=${1:-/tmp/psregress}; mkdir -p $out
+find /root/.cache/go-build -type f -mmin +90 -delete 2>/dev/null  # scratch builds fill the build cache (135 GB once): keep it trimmed
 cp /verif/bin/pslint $out/pslint; export PSLINT=$out/pslint
 for p in $(seq -w 1 20); do $PSLINT -prop C$p -tier thorough -no-evidence; done 2>&1 | grep -v ' 0 not discharged\| 0 missed, 0 skipped' > $out/clean.txt
 /verif/tools/try_all_seeded.sh own > $out/seeded.txt 2>&1
